@@ -23,13 +23,22 @@ LEVEL_TEXT = ("Theorems (Props/C09.v): for every tensor grid with strictly incre
               "kernel _edge_curl_factor (translated from fields.py on every run) equals "
               "<curl^T(face sampling vector), E>/(s mu0) (discrete Faraday, mu_r = 1, all widths > 0); "
               "for a symmetric operator and exact solves the response is reciprocal. Unbounded in grid "
-              "size; tests check one source/receiver pair.")
+              "size; tests check one source/receiver pair. Survey glue (Model/RecCoord.v): for every survey "
+              "(relative/absolute, electric/magnetic receivers, any sources) and EVERY history of requests on "
+              "one Survey object the coordinates handed to get_receiver for (source, receiver) are "
+              "coordinates_abs(source centre, receiver) (cache coherence by induction; a failed request leaves "
+              "the cache unchanged; stored entries are never rewritten), hence after every history the responses "
+              "of Simulation._get_responses are the inner products with the unit point vectors at those positions.")
 LEVEL_NOTE = ("Hand model tied by differential correspondence on exact dyadic inputs (scipy's linear "
               "RegularGridInterpolator, numpy indexing, the rotation factors cosdg/sindg are inputs). "
               "discretize's face interpolation / edge_curl used by _point_vector_magnetic are compared "
               "numerically with the model's curl^T(face_vector), not proved. Reciprocity is proved for "
               "exact solutions of a symmetric operator (hypotheses); 'up to solver tolerance' is only "
-              "searched on small solves. Rounding not modelled. Theorems over R use the Reals axioms.")
+              "searched on small solves. Rounding not modelled. Theorems over R use the Reals axioms. "
+              "Model/RecCoord.v (Receiver.coordinates_abs, Survey._irec_types/_rec_types_coord with its per-source "
+              "cache, Simulation._get_responses) is a hand model tied by a history stream on real Survey/Simulation "
+              "objects (exact dyadic coordinates; source centres are inputs: point = its position, dipole = midpoint; "
+              "electrodes.rotation is an oracle).")
 TECHNIQUE = ("Coq proof (field/ring/lia/lra; generated kernel for the curl) + differential "
              "correspondence (vm_compute on Q)")
 DESIGN_REF = "DESIGN.md section 6 C09"
@@ -41,7 +50,9 @@ PROPS = 'Props/C09.v'
 TRUSTED = ["Model/Interp.v as the reading of scipy RegularGridInterpolator(linear, fill_value=nan), "
            "maps._points_from_grids, fields.get_receiver and fields._point_vector (validated on every run "
            "by the correspondence on exact rationals)",
-           "Model/FIT.v curl / curl^T as the meaning of 'discrete Faraday law' (shared with C02)"]
+           "Model/FIT.v curl / curl^T as the meaning of 'discrete Faraday law' (shared with C02)",
+           "Model/RecCoord.v as the reading of Receiver.coordinates_abs, Survey._rec_types_coord (cache as state) "
+           "and Simulation._get_responses (validated on every run by the survey-history stream)"]
 ASSUMES = ["rotation factors (scipy.special.cosdg/sindg) are inputs of the model",
            "complex fields are treated as (real part, imaginary part): all weights are real",
            "magnetic clause: mu_r = 1 (zeta = cell volume / (s mu0)); discretize's interpolation matrix "
@@ -806,6 +817,328 @@ def magnetic_check(c, out, dis, hist, seen):
     return n
 
 
+# ------------------------------------------------ survey histories (round 7)
+# The glue between Survey and get_receiver: Receiver.coordinates_abs,
+# Survey._irec_types, Survey._rec_types_coord (per-source cache on the Survey
+# object) and Simulation._get_responses.  Model: Model/RecCoord.v, executed on
+# the whole history of ONE Survey object.
+SHEADER = (K.CASE_HEADER + "From V Require Import Model.RecCoord.\n"
+           "Definition oc (c : @coord5 Q) : list (Z * Z) := "
+           "[out_q (fst (fst (fst c))); out_q (snd (fst (fst c))); out_q (snd (fst c)); "
+           "out_q (fst (snd c)); out_q (snd (snd c))].\n"
+           "Definition tag (o : @outcome Q) : Z := match o with Coords _ _ => 1 | KeyErr => 2 | Done => 3 end.\n"
+           "Definition oe (o : @outcome Q) : list (Z * Z) := "
+           "match o with Coords e _ => flat_map oc e | _ => [] end.\n"
+           "Definition om (o : @outcome Q) : list (Z * Z) := "
+           "match o with Coords _ m => flat_map oc m | _ => [] end.\n")
+
+RX_LAYOUTS = ['mixed_mag_first', 'all_relative', 'mixed_electric_only', 'all_absolute',
+              'relative_magnetic_absolute_electric', 'one_relative_last']
+HIST_TEMPLATES = ['observed_then_new_simulation', 'compute_clean_compute', 'direct_requests',
+                  'direct_responses', 'compute_twice_no_clean']
+
+
+def _src_def(rng, kind, centre, g):
+    """(constructor name, coordinates); the centre is an INPUT (midpoint of the dipole)."""
+    if kind == 'ED':
+        # half-lengths: dyadic, at most half of the thinner outermost cell (electrodes stay inside)
+        d = [rng.randint(-4, 4) / 8. * min(g['hs'][dd][0], g['hs'][dd][-1]) for dd in range(3)]
+        if not any(d):
+            d[0] = min(g['hs'][0][0], g['hs'][0][-1]) / 2
+        co = (centre[0] - d[0], centre[0] + d[0], centre[1] - d[1], centre[1] + d[1],
+              centre[2] - d[2], centre[2] + d[2])
+        return ('TxElectricDipole', co)
+    az, el = gen_angle(rng)
+    return ('TxElectricPoint' if kind == 'EP' else 'TxMagneticPoint', tuple(centre) + (az, el))
+
+
+def gen_survey_case(rng, ci):
+    g = gen_grid(rng, 4, 5, force_big=(ci % 3 == 1))
+    nds = [nodes_of(g, d) for d in range(3)]
+    nsrc = 2 + ci % 3
+    kinds = [['EP', 'ED', 'MP'][(ci + i) % 3] for i in range(nsrc)]
+    if g['big_origin']:
+        # electrodes.Dipole rejects electrodes that are np.allclose (rtol 1e-5 of the ABSOLUTE
+        # coordinate): short dipoles cannot be built at projected coordinates
+        kinds = ['EP' if k == 'ED' else k for k in kinds]
+    centres = []
+    for i in range(nsrc):
+        c = [float(gen_coord(rng, nds[d], 'generic')) for d in range(3)]
+        if i and c == centres[0]:
+            c[0] = float(nds[0][1])
+        centres.append(c)
+    if nsrc == 4:
+        centres[3] = list(centres[1])          # two sources sharing one centre
+    # user keys in non-alphabetical order
+    skeys = ['Tx%s' % 'zkabq'[i] for i in range(nsrc)]
+    sources = [dict(key=skeys[i], kind=kinds[i], centre=centres[i],
+                    ctor=_src_def(rng, kinds[i], centres[i], g)) for i in range(nsrc)]
+    layout = RX_LAYOUTS[ci % len(RX_LAYOUTS)]
+    nrec = rng.randint(3, 6)
+    recs = []
+    for j in range(nrec):
+        if layout == 'mixed_mag_first':
+            rel, el = (j % 2 == 0), (j % 3 != 0)
+        elif layout == 'all_relative':
+            rel, el = True, (j % 2 == 0)
+        elif layout == 'mixed_electric_only':
+            rel, el = (j % 2 == 1), True
+        elif layout == 'all_absolute':
+            rel, el = False, (j % 2 == 1)
+        elif layout == 'relative_magnetic_absolute_electric':
+            rel = (j % 2 == 0)
+            el = not rel
+        else:
+            rel, el = (j == nrec - 1), (j % 2 == 0)
+        # target position inside the inner range for a reference source
+        tgt = [float(gen_coord(rng, nds[d], rng.choice(['generic', 'generic', 'centre', 'node'])))
+               for d in range(3)]
+        ref = rng.randrange(nsrc)
+        xyz = [tgt[d] - centres[ref][d] for d in range(3)] if rel else tgt
+        az, elv = gen_angle(rng)
+        recs.append(dict(key='Rx%s' % 'qpacbz'[j], rel=rel, el=el, xyz=xyz, az=az, elv=elv))
+    # history: the direct-request template always, plus two others (rotating)
+    tpl = ['direct_requests', HIST_TEMPLATES[ci % len(HIST_TEMPLATES)],
+           HIST_TEMPLATES[(ci // 2 + 3) % len(HIST_TEMPLATES)]]
+    rng.shuffle(tpl)
+    ops = []
+    for t in tpl:
+        if t == 'observed_then_new_simulation':
+            ops += [('compute', True), ('newsim',), ('compute', False)]
+        elif t == 'compute_clean_compute':
+            ops += [('compute', False), ('clean',), ('compute', False)]
+        elif t == 'compute_twice_no_clean':
+            ops += [('compute', False), ('compute', False)]
+        elif t == 'direct_requests':
+            order = list(range(nsrc))
+            ops += [('req', i) for i in order]
+            ops += [('scribble',)]
+            ops += [('req', i) for i in reversed(order)]
+            ops += [('bad', 'no-such-source')]
+            ops += [('req', rng.randrange(nsrc)) for _ in range(3)]
+        else:
+            order = list(range(nsrc)) * 2
+            rng.shuffle(order)
+            ops += [('resp', i, rng.randint(0, 2**31 - 1)) for i in order]
+    return dict(g=g, sources=sources, recs=recs, ops=ops, layout=layout, templates=tpl,
+                freq=rng.choice([1.0, 0.5, 2.0]))
+
+
+def survey_model_ops(c):
+    """The history as operations of Model.RecCoord (one freq: compute asks every source once)."""
+    out = []
+    for op in c['ops']:
+        if op[0] in ('req', 'resp'):
+            out.append('Req %d' % op[1])
+        elif op[0] == 'bad':
+            out.append('Req 99')
+        elif op[0] == 'scribble':
+            out.append('Scribble')
+        elif op[0] == 'compute':
+            out += ['Req %d' % i for i in range(len(c['sources']))]
+    return out
+
+
+def survey_text(cases, tagn):
+    L = [SHEADER]
+    for k, c in enumerate(cases):
+        srcs = '; '.join('(%d, (%s, %s, %s))' % ((i,) + tuple(V.q(v) for v in s['centre']))
+                         for i, s in enumerate(c['sources']))
+        rcs = '; '.join('mkRx %s %s (%s, %s, %s) (%s, %s)' % (
+            (V.coq_bool(r['rel']), V.coq_bool(r['el'])) + tuple(V.q(v) for v in r['xyz']) +
+            (V.q(r['az']), V.q(r['elv']))) for r in c['recs'])
+        mops = survey_model_ops(c)
+        L.append(f"Definition sv{k} : @survey Q := mkSurvey [{srcs}] [{rcs}].")
+        L.append(f"Definition an{k} : list (@outcome Q) := snd (run sv{k} [] [{'; '.join(mops)}]).")
+        L.append(f"Eval vm_compute in map (fun o => (tag o, oe o, om o)) an{k}.")
+    return '\n'.join(L) + '\n'
+
+
+def build_survey(c):
+    import emg3d
+    srcs = {s['key']: getattr(emg3d, s['ctor'][0])(s['ctor'][1]) for s in c['sources']}
+    recs = {}
+    for r in c['recs']:
+        Rx = emg3d.RxElectricPoint if r['el'] else emg3d.RxMagneticPoint
+        recs[r['key']] = Rx(tuple(r['xyz']) + (r['az'], r['elv']), relative=r['rel'])
+    return emg3d.Survey(srcs, recs, c['freq'])
+
+
+def new_simulation(survey, grid, model):
+    import emg3d
+    return emg3d.Simulation(survey, model, gridding='same', max_workers=1,
+                            receiver_interpolation='linear', verb=-1, tqdm_opts=False,
+                            solver_opts={'tol': 1e-2, 'maxit': 1, 'sslsolver': False,
+                                         'semicoarsening': False, 'linerelaxation': False})
+
+
+def brief_survey(c):
+    return dict(grid=dict(shape=list(c['g']['shape']), hs=c['g']['hs'], origin=c['g']['origin']),
+                frequency=c['freq'],
+                sources=[{'key': s['key'], 'class': s['ctor'][0], 'coordinates': list(s['ctor'][1]),
+                          'centre': s['centre']} for s in c['sources']],
+                receivers=[{'key': r['key'], 'class': 'RxElectricPoint' if r['el'] else 'RxMagneticPoint',
+                            'coordinates': list(r['xyz']) + [r['az'], r['elv']], 'relative': r['rel']}
+                           for r in c['recs']])
+
+
+def show_ops(c, upto=None):
+    out = []
+    for op in c['ops'][:upto]:
+        if op[0] in ('req', 'resp'):
+            out.append({'req': 'survey._rec_types_coord', 'resp': 'sim._get_responses(random field)'}[op[0]]
+                       + ' ' + c['sources'][op[1]]['key'])
+        elif op[0] == 'bad':
+            out.append('survey._rec_types_coord(unknown key)')
+        elif op[0] == 'scribble':
+            out.append('overwrite the arrays returned by the previous request in place')
+        elif op[0] == 'compute':
+            out.append('sim.compute(observed=%s)' % op[1])
+        elif op[0] == 'newsim':
+            out.append('new Simulation on the same Survey object')
+        else:
+            out.append("sim.clean('computed')")
+    return out
+
+
+def survey_check(c, answers, dis, hist, seen):
+    """Drive ONE real Survey (and Simulations on it) through the history and compare
+    every observable with Model.RecCoord.run on the same history."""
+    import emg3d
+    from emg3d import fields
+    survey = build_survey(c)
+    grid = make_grid(c['g'])
+    npr = np.random.RandomState(17)
+    model = emg3d.Model(grid, property_x=npr.uniform(0.5, 4.0, grid.shape_cells))
+    eidx = [j for j, r in enumerate(c['recs']) if r['el']]
+    midx = [j for j, r in enumerate(c['recs']) if not r['el']]
+    skeys = [s['key'] for s in c['sources']]
+    if list(survey.sources.keys()) != skeys or list(survey.receivers.keys()) != [r['key'] for r in c['recs']]:
+        dis.append({'what': 'Survey does not keep the user keys / order of sources and receivers',
+                    'case': brief_survey(c)})
+        return 0
+    fkey = list(survey.frequencies.keys())[0]
+    sim = None
+    state = {'k': 0, 'n': 0}
+    last_returned = None
+
+    import ast
+    import fractions
+    answers = ast.literal_eval(answers.replace(';', ','))      # [(tag, [(n, d), ...], [(n, d), ...]), ...]
+
+    def model_answer():
+        tg, e, m = answers[state['k']]
+        state['k'] += 1
+        rows = lambda a: [[float(fractions.Fraction(n, d)) for (n, d) in a[i:i + 5]]
+                          for i in range(0, len(a), 5)]
+        return int(tg), rows(e), rows(m)
+
+    def fail(what, step, **kw):
+        dis.append(dict({'what': what, 'case': brief_survey(c), 'history': show_ops(c, step + 1),
+                         'failing_step': step}, **kw))
+
+    def cmp_coords(step, skey, got, e_rows, m_rows):
+        for nm, tup, rows in (('electric', got[0], e_rows), ('magnetic', got[1], m_rows)):
+            arr = np.array([np.asarray(a, float) for a in tup]).T.reshape(-1, 5) if len(tup) else np.zeros((0, 5))
+            want = np.array(rows, float).reshape(-1, 5)
+            if arr.shape != want.shape or not np.array_equal(arr, want):
+                fail('Survey._rec_types_coord(source) differs from Model.RecCoord (coordinates_abs of THIS '
+                     'source for every history)', step, source=skey, receivers=nm,
+                     impl=arr.tolist(), model=want.tolist())
+                return False
+        return True
+
+    def expected_resp(skey, efield, e_rows, m_rows):
+        want = np.full(len(c['recs']), np.nan, dtype=complex)
+        if e_rows:
+            want[eidx] = fields.get_receiver(
+                efield, tuple(np.array(col) for col in zip(*e_rows)), 'linear')
+        if m_rows:
+            hf = fields.get_magnetic_field(model, efield)
+            want[midx] = fields.get_receiver(
+                hf, tuple(np.array(col) for col in zip(*m_rows)), 'linear')
+        return want
+
+    def cmp_resp(step, skey, got, want, how):
+        got = np.asarray(got, dtype=complex)
+        sc = max(1e-300, float(np.nanmax(np.abs(want))) if np.any(np.isfinite(want)) else 1e-300)
+        for j in range(len(want)):
+            a, b = got[j], want[j]
+            ok = (np.isnan(a) and np.isnan(b)) or (np.isfinite(a) and np.isfinite(b) and
+                                                   abs(a - b) <= 1e-9 * max(abs(b), 1e-6 * sc))
+            hist['survey_resp_' + ('nan' if np.isnan(b) else 'num')] += 1
+            if not ok:
+                fail(f'{how}: the response stored for (source, receiver) is not get_receiver of the '
+                     f"source's field at Model.RecCoord's coordinates_abs(source, receiver)", step,
+                     source=skey, receiver=c['recs'][j]['key'], impl=str(a), model=str(b))
+                return False
+        return True
+
+    for step, op in enumerate(c['ops']):
+        hist['survey_op_' + op[0]] += 1
+        if op[0] in ('req', 'bad'):
+            skey = skeys[op[1]] if op[0] == 'req' else op[1]
+            tg, e_rows, m_rows = model_answer()
+            try:
+                got = survey._rec_types_coord(skey)
+                err = None
+            except KeyError:
+                got, err = None, 'KeyError'
+            state['n'] += 1
+            if (tg == 2) != (err is not None):
+                fail('Survey._rec_types_coord error behaviour differs from Model.RecCoord', step,
+                     source=skey, impl=err or 'coordinates', model='KeyErr' if tg == 2 else 'Coords')
+                return state['n']
+            if got is not None:
+                if not cmp_coords(step, skey, got, e_rows, m_rows):
+                    return state['n']
+                last_returned = got
+        elif op[0] == 'scribble':
+            tg, _, _ = model_answer()
+            for tup in (last_returned or []):
+                for a in tup:
+                    a[...] = -12345.678
+        elif op[0] == 'resp':
+            skey = skeys[op[1]]
+            tg, e_rows, m_rows = model_answer()
+            if sim is None:
+                sim = new_simulation(survey, grid, model)
+            fr = np.random.RandomState(op[2])
+            ef = emg3d.Field(grid, frequency=c['freq'])
+            ef.field = fr.standard_normal(ef.field.size) + 1j * fr.standard_normal(ef.field.size)
+            got = sim._get_responses(skey, fkey, efield=ef)
+            state['n'] += 1
+            if not cmp_resp(step, skey, got, expected_resp(skey, ef, e_rows, m_rows),
+                            'Simulation._get_responses(source, frequency, efield)'):
+                return state['n']
+        elif op[0] == 'newsim':
+            sim = new_simulation(survey, grid, model)
+        elif op[0] == 'clean':
+            if sim is not None:
+                sim.clean('computed')
+        else:
+            if sim is None:
+                sim = new_simulation(survey, grid, model)
+            if op[1]:
+                sim.compute(observed=True, add_noise=False)
+            else:
+                sim.compute()
+            for skey in skeys:
+                tg, e_rows, m_rows = model_answer()
+                ef = sim.get_efield(skey, fkey)
+                got = survey.data.synthetic.loc[skey, :, fkey].data
+                state['n'] += 1
+                if not cmp_resp(step, skey, got, expected_resp(skey, ef, e_rows, m_rows),
+                                f'Simulation.compute(observed={op[1]})'):
+                    return state['n']
+    hist['survey_layout_' + c['layout']] += 1
+    for t in c['templates']:
+        hist['survey_template_' + t] += 1
+    hist['survey_sources_%d' % len(skeys)] += 1
+    seen.add(('survey', c['layout'], tuple(c['templates']), len(skeys), c['g']['big_origin']))
+    return state['n']
+
+
 # ----------------------------------------------------------- correspondence
 def correspondence(ctx):
     import collections
@@ -818,6 +1151,10 @@ def correspondence(ctx):
     texts += [(f"c09_k_{i}", kernel_text(c)) for i, c in enumerate(kcases)]
     mgroups = [magnetic_group(rng, sweep=(i == 0)) for i in range(24 if ctx.thorough else 6)]
     texts += [(f"c09_m_{i}", magnetic_text(c)) for i, c in enumerate(mgroups)]
+    # survey histories: layouts and history templates enumerated deterministically
+    scases = [gen_survey_case(rng, i) for i in range(24 if ctx.thorough else 6)]
+    sfiles = [scases[i:i + 3] for i in range(0, len(scases), 3)]
+    texts += [(f"c09_s_{i}", survey_text(cs, i)) for i, cs in enumerate(sfiles)]
     res = V.coq_eval_many(texts)
     dis, seen = [], set()
     hist = collections.Counter()
@@ -843,6 +1180,14 @@ def correspondence(ctx):
             dis.append({'what': 'magnetic model does not evaluate', 'log': out[-1500:]})
             continue
         evals += magnetic_check(c, out, dis, hist, seen)
+    for i, cs in enumerate(sfiles):
+        rc, out = res[f"c09_s_{i}"]
+        if rc != 0:
+            dis.append({'what': 'Model.RecCoord does not evaluate', 'log': out[-1500:]})
+            continue
+        ans = V.eval_answers(out)
+        for c, a in zip(cs, ans):
+            evals += survey_check(c, a, dis, hist, seen)
     samples = [brief_rx(groups[0]['g'], r) for r in groups[0]['recs'][:2]]
     return {
         'evaluations': evals,
@@ -864,7 +1209,15 @@ def correspondence(ctx):
                 "vector, earlier returned fields re-compared at the end. Kernel cases: _edge_curl_factor compiled and "
                 ".py_func vs the generated model on 1..3^3 shapes with pre-filled outputs. Magnetic groups: "
                 "mu_r = 1, Laplace or frequency domain, 4 receivers sampled through get_magnetic_field one per call + 2 multi-receiver calls with cancelling orientation sets, and "
-                "_point_vector_magnetic(frequency=None) vs -curl^T(face_vector) for interior positions",
+                "_point_vector_magnetic(frequency=None) vs -curl^T(face_vector) for interior positions. "
+                "Survey histories: per case ONE real Survey (2..4 point/dipole/magnetic sources with user keys in "
+                "non-alphabetical order, two of four sharing a centre; 3..6 point receivers, layout enumerated: "
+                + ', '.join(RX_LAYOUTS) + "; dyadic coordinates, every third grid at projected coordinates) driven through "
+                "a history built from the templates " + ', '.join(HIST_TEMPLATES) + " (enumerated; direct requests in "
+                "forward / reversed / random order with an unknown key and in-place overwriting of returned arrays "
+                "always included); Model.RecCoord.run is evaluated on the same history (vm_compute on Q); requests are "
+                "compared exactly, responses of compute()/_get_responses with fields.get_receiver / get_magnetic_field "
+                "of the stored field at the model's coordinates (1e-9)",
         'samples': samples,
         'traces_validated_against_impl': evals,
         'histogram': dict(hist),
@@ -1144,6 +1497,134 @@ def search_history(np_seed):
     return None
 
 
+def search_survey_history(np_seed):
+    """Histories on ONE Survey object (relative + absolute, electric + magnetic
+    point receivers, several sources with different centres; repeated
+    extraction of the responses): after every step each stored response must be
+    the inner product of that source's field with the independent oracle vector
+    at  own centre + offset  (relative) / own coordinates (absolute), NaN outside
+    the inner range.  Independent of the Coq model and of emg3d's coordinate glue."""
+    import emg3d
+    from emg3d import fields
+    npr = np.random.RandomState(np_seed)
+    shape = tuple(int(npr.choice([4, 6, 8])) for _ in range(3))
+    hs = [npr.uniform(30., 80., n) for n in shape]
+    base = [[0., 0., 0.], [5e5, 6.5e6, -2000.], [-3e5, -4e6, 100.]][int(npr.randint(3))]
+    origin = np.array(base) - np.array([h.sum() / 2 for h in hs])
+    grid = emg3d.TensorMesh(hs, origin)
+    nds = [np.asarray(grid.nodes_x), np.asarray(grid.nodes_y), np.asarray(grid.nodes_z)]
+    model = emg3d.Model(grid, property_x=npr.uniform(0.5, 4.0, grid.shape_cells))
+    freq = float(npr.choice([0.5, 1.0, 2.0]))
+
+    def inner_pos():
+        return np.array([npr.uniform(n[1] + 0.2 * (n[2] - n[1]), n[-2] - 0.2 * (n[-2] - n[-3])) for n in nds])
+    nsrc = int(npr.randint(2, 4))
+    centres, srcs, sdesc = [], {}, []
+    for i in range(nsrc):
+        c = inner_pos()
+        kind = ['TxElectricPoint', 'TxElectricDipole', 'TxMagneticPoint'][int(npr.randint(3))]
+        if kind == 'TxElectricDipole':
+            d = npr.uniform(-5, 5, 3)
+            co = (c[0] - d[0], c[0] + d[0], c[1] - d[1], c[1] + d[1], c[2] - d[2], c[2] + d[2])
+            c = np.array([(co[0] + co[1]) / 2, (co[2] + co[3]) / 2, (co[4] + co[5]) / 2])
+        else:
+            co = tuple(c) + (float(npr.uniform(-180, 180)), float(npr.uniform(-90, 90)))
+        key = 'S%s' % 'zka'[i]
+        srcs[key] = getattr(emg3d, kind)(tuple(float(v) for v in co))
+        centres.append(c)
+        sdesc.append({'key': key, 'class': kind, 'coordinates': [float(v) for v in co]})
+    nrec = int(npr.randint(3, 7))
+    recs, rdesc = {}, []
+    for j in range(nrec):
+        rel = bool(j % 2 == 0) if j < 4 else bool(npr.rand() < 0.5)
+        el = bool(npr.rand() < 0.6)
+        tgt = inner_pos()
+        xyz = tgt - centres[int(npr.randint(nsrc))] if rel else tgt
+        co = tuple(float(v) for v in xyz) + (float(npr.uniform(-180, 180)), float(npr.uniform(-90, 90)))
+        key = 'R%s' % 'qpacbz'[j]
+        recs[key] = (emg3d.RxElectricPoint if el else emg3d.RxMagneticPoint)(co, relative=rel)
+        rdesc.append({'key': key, 'class': 'RxElectricPoint' if el else 'RxMagneticPoint',
+                      'coordinates': list(co), 'relative': rel})
+    survey = emg3d.Survey(srcs, recs, freq)
+    fkey = list(survey.frequencies.keys())[0]
+    rec = {'np_seed': int(np_seed), 'kind': 'survey_history', 'shape': list(shape),
+           'hx': [float.hex(float(v)) for v in hs[0]], 'hy': [float.hex(float(v)) for v in hs[1]],
+           'hz': [float.hex(float(v)) for v in hs[2]], 'origin': [float.hex(float(v)) for v in origin],
+           'frequency': freq, 'sources': sdesc, 'receivers': rdesc}
+
+    def inside(p):
+        return all(nds[d][1] <= p[d] <= nds[d][-2] for d in range(3))
+
+    def verify(which, get_field, get_value, done):
+        for i in which:
+            sd = sdesc[i]
+            ef = get_field(sd['key'])
+            hf = None
+            for j, rd in enumerate(rdesc):
+                co = rd['coordinates']
+                p = (centres[i] + np.array(co[:3])) if rd['relative'] else np.array(co[:3])
+                got = complex(get_value(sd['key'], j))
+                if not inside(p):
+                    want = complex(np.nan)
+                else:
+                    electric = rd['class'] == 'RxElectricPoint'
+                    if electric:
+                        fld = ef
+                    else:
+                        hf = hf if hf is not None else fields.get_magnetic_field(model, ef)
+                        fld = hf
+                    ov = oracle_vector(grid, p, rot(co[3], co[4]), electric)
+                    want = complex(sum(np.sum(ov[k] * [fld.fx, fld.fy, fld.fz][k]) for k in range(3)))
+                sc = max(1e-300, float(np.max(np.abs(fld.field)))) if inside(p) else 1.0
+                ok = (np.isnan(got) and np.isnan(want)) or (
+                    np.isfinite(got) and np.isfinite(want) and abs(got - want) <= 1e-7 * max(abs(want), 1e-3 * sc))
+                if not ok:
+                    return dict(rec, signature='after a history on one Survey object the response of '
+                                '(source, receiver) is not <field of that source, unit point vector at '
+                                "the receiver's absolute position for THAT source>",
+                                history=list(done), source=sd['key'], receiver=rd['key'],
+                                receiver_position_for_this_source=[float(v) for v in p],
+                                observed=str(got), required=str(want))
+        return None
+
+    sim = new_simulation(survey, grid, model)
+    plan = [['compute(observed=True)', 'new Simulation on the same Survey', 'compute()'],
+            ['compute()', "clean('computed')", 'compute()'],
+            ['compute()', 'compute()'],
+            ['_get_responses in permuted order, twice']][int(npr.randint(4))]
+    plan = plan + [['compute()'], ['_get_responses in permuted order, twice'],
+                   ['new Simulation on the same Survey', 'compute()']][int(npr.randint(3))]
+    done = []
+    for op in plan:
+        done.append(op)
+        if op.startswith('compute'):
+            if 'observed' in op:
+                sim.compute(observed=True, add_noise=False)
+            else:
+                sim.compute()
+            cur = sim
+            h = verify(range(nsrc), lambda s: cur.get_efield(s, fkey),
+                       lambda s, j: survey.data.synthetic.loc[s, :, fkey].data[j], done)
+            if h:
+                return h
+        elif op.startswith('new'):
+            sim = new_simulation(survey, grid, model)
+        elif op.startswith('clean'):
+            sim.clean('computed')
+        else:
+            order = list(range(nsrc)) * 2
+            npr.shuffle(order)
+            for i in order:
+                ef = emg3d.Field(grid, frequency=freq)
+                ef.field = npr.standard_normal(ef.field.size) + 1j * npr.standard_normal(ef.field.size)
+                resp = sim._get_responses(sdesc[i]['key'], fkey, efield=ef)
+                done[-1] = op + ' (now: %s)' % sdesc[i]['key']
+                h = verify([i], lambda s: ef, lambda s, j: resp[j], done)
+                if h:
+                    return h
+    return None
+
+
 def search_reciprocity(np_seed, tol=1e-9):
     """Exchange an electric point source and an electric point receiver on a
     tiny solve; same for magnetic points."""
@@ -1219,6 +1700,13 @@ def search(ctx, broken):
             if h:
                 hits.append(h)
                 break
+    nsh = 24 if ctx.thorough else 8
+    if not hits:
+        for _ in range(nsh):
+            h = search_survey_history(rng.randint(0, 2**31 - 1))
+            if h:
+                hits.append(h)
+                break
     worst = 0.0
     nrec = 20 if ctx.thorough else 8
     if not hits:
@@ -1233,7 +1721,10 @@ def search(ctx, broken):
                      f"oracle, electric and magnetic, NaN policy), {nb} multi-receiver problems (6 orientation sets incl. "
                      f"cancelling ones x electric/magnetic x tuple/list form), {nsw} NaN sweeps on grids with large/negative "
                      f"origins (both methods, both field types, 3 input forms), {nh} 12-step source-field histories "
-                     f"on one grid object, {nrec} reciprocity solves "
+                     f"on one grid object, {nsh} histories on one Survey object (relative/absolute, electric/magnetic "
+                     f"receivers, 2-3 sources; compute(observed) / new Simulation / clean / compute / direct "
+                     f"_get_responses in permuted order; every stored response against the oracle at the "
+                     f"independently computed absolute position), {nrec} reciprocity solves "
                      f"(worst relative deviation {worst:.2e}, tol 1e-9)")
     return hits
 
@@ -1248,6 +1739,8 @@ def replay(ctx, payload):
         return search_history(fi['np_seed']) is None
     if fi.get('kind') == 'batch':
         return search_batch(fi['np_seed']) is None
+    if fi.get('kind') == 'survey_history':
+        return search_survey_history(fi['np_seed']) is None
     if fi.get('kind') == 'reciprocity':
         h = search_reciprocity(fi['np_seed'])
         return bool(h is None or h.get('ok'))
